@@ -1,4 +1,140 @@
-//! lists suites (stub)
-pub fn list_case(_f: &[&str]) -> String {
-    "UNIMPLEMENTED".to_string()
+//! LIST suite (C16): a list / concatenation built from a value term, queried through the public interface.
+//! Case: LIST \t id \t store \t term \t queries (space separated)
+//!   data level     len | items | nth:<i32> | sym:<u64>
+//!   runtime level  acc:<i32> | accs:<u64>   (ops::access with a number / symbol key)
+//!                  app:<i32> | apps:<u64>   (ops::apply)
+//! Result: one `name(arg)=answer` per query; answers are rendered values, `none`, or `err`.
+use crate::store::{BasicStore, SimpleStore, Store};
+use crate::values::{build, parse_term, render};
+use garnish_lang_runtime::ops;
+use garnish_lang_simple_data::SimpleNumber;
+use garnish_lang_traits::{Extents, GarnishDataType};
+
+fn full() -> Extents<SimpleNumber> {
+    Extents::new(SimpleNumber::Integer(0), SimpleNumber::Float(f64::MAX))
+}
+
+fn opt_item<D: Store>(d: &D, r: Result<Option<usize>, garnish_lang_simple_data::DataError>) -> String {
+    match r {
+        Ok(Some(a)) => render(d, a, 0),
+        Ok(None) => "none".into(),
+        Err(_) => "err".into(),
+    }
+}
+
+fn runtime_query<D: Store>(d: &mut D, addr: usize, key: Result<usize, garnish_lang_simple_data::DataError>, apply: bool) -> String {
+    let key = match key {
+        Ok(k) => k,
+        Err(_) => return "SETUP-ERR key".into(),
+    };
+    let r0 = d.operands().len();
+    if d.push_register(addr).is_err() || d.push_register(key).is_err() {
+        return "SETUP-ERR push".into();
+    }
+    let res = if apply { ops::apply(d) } else { ops::access(d) };
+    let out = match res {
+        Err(_) => "err".to_string(),
+        Ok(_) => {
+            let regs = d.operands();
+            if regs.len() != r0 + 1 {
+                format!("regs{}", regs.len() as i64 - r0 as i64)
+            } else {
+                render(d, *regs.last().unwrap(), 0)
+            }
+        }
+    };
+    // leave the operand stack as it was
+    while d.operands().len() > r0 {
+        if d.pop_register().is_err() {
+            break;
+        }
+    }
+    out
+}
+
+fn list_on<D: Store>(f: &[&str]) -> String {
+    let mut d = D::create(None);
+    let term = match parse_term(f[3]) {
+        Ok(t) => t,
+        Err(e) => return format!("BAD-CASE {}", e),
+    };
+    let addr = match build(&mut d, &term) {
+        Ok(a) => a,
+        Err(e) => return format!("SETUP-ERR {}", e),
+    };
+    let ty = d.get_data_type(addr).unwrap_or(GarnishDataType::Invalid);
+    let mut out: Vec<String> = vec![];
+    for q in f[4].split(' ').filter(|q| !q.is_empty()) {
+        let (name, arg) = match q.split_once(':') {
+            Some((n, a)) => (n, a),
+            None => (q, ""),
+        };
+        match name {
+            "len" => out.push(match d.get_list_len(addr) {
+                Ok(n) => format!("len={}", n),
+                Err(_) => "len=err".into(),
+            }),
+            "items" => {
+                let addrs: Result<Vec<usize>, _> = if ty == GarnishDataType::Concatenation {
+                    d.get_concatenation_iter(addr, full()).map(|it| it.collect())
+                } else {
+                    d.get_list_item_iter(addr, full()).map(|it| it.collect())
+                };
+                out.push(match addrs {
+                    Ok(addrs) => {
+                        let v: Vec<String> = addrs.iter().map(|a| render(&d, *a, 0)).collect();
+                        format!("items=[{}]", v.join(","))
+                    }
+                    Err(_) => "items=err".into(),
+                });
+            }
+            "nth" => {
+                let i: i32 = match arg.parse() {
+                    Ok(i) => i,
+                    Err(_) => return "BAD-CASE nth".into(),
+                };
+                let r = d.get_list_item(addr, SimpleNumber::Integer(i));
+                out.push(format!("nth({})={}", i, opt_item(&d, r)));
+            }
+            "sym" => {
+                let s: u64 = match arg.parse() {
+                    Ok(s) => s,
+                    Err(_) => return "BAD-CASE sym".into(),
+                };
+                let r = d.get_list_item_with_symbol(addr, s);
+                out.push(format!("sym({})={}", s, opt_item(&d, r)));
+            }
+            "acc" | "app" => {
+                let i: i32 = match arg.parse() {
+                    Ok(i) => i,
+                    Err(_) => return "BAD-CASE acc".into(),
+                };
+                let key = d.add_number(SimpleNumber::Integer(i));
+                let r = runtime_query(&mut d, addr, key, name == "app");
+                out.push(format!("{}({})={}", name, i, r));
+            }
+            "accs" | "apps" => {
+                let s: u64 = match arg.parse() {
+                    Ok(s) => s,
+                    Err(_) => return "BAD-CASE accs".into(),
+                };
+                let key = d.add_symbol(s);
+                let r = runtime_query(&mut d, addr, key, name == "apps");
+                out.push(format!("{}({})={}", name, s, r));
+            }
+            x => return format!("BAD-CASE query {}", x),
+        }
+    }
+    out.join(" ")
+}
+
+pub fn list_case(f: &[&str]) -> String {
+    if f.len() < 5 {
+        return "BAD-CASE fields".into();
+    }
+    match f[2] {
+        "simple" => list_on::<SimpleStore>(f),
+        "basic" => list_on::<BasicStore>(f),
+        s => format!("BAD-CASE store {}", s),
+    }
 }
